@@ -29,7 +29,8 @@ WILD = "."
 CASES_CFG = """SPECIFICATION Spec
 CONSTANTS
   ReqSyms = {"a", "b"}
-  MaxReq = %(MaxReq)d
+  MaxReq1 = %(MaxReq1)d
+  MaxReq2 = %(MaxReq2)d
   PatSyms = {"a", "b"}
   MaxOps1 %(MaxOps1)s
   MaxOps2 %(MaxOps2)s
@@ -41,14 +42,8 @@ CHECK_DEADLOCK FALSE
 """
 
 BOXES = {
-    "quick": [
-        {"MaxReq": 2, "MaxOps1": 2, "MaxOps2": None, "Limits": [1, 3]},
-        {"MaxReq": 1, "MaxOps1": None, "MaxOps2": 1, "Limits": [1, 3]},
-    ],
-    "thorough": [
-        {"MaxReq": 3, "MaxOps1": 2, "MaxOps2": None, "Limits": [1, 2, 3]},
-        {"MaxReq": 2, "MaxOps1": None, "MaxOps2": 1, "Limits": [1, 2, 3]},
-    ],
+    "quick": [{"MaxReq1": 2, "MaxReq2": 1, "MaxOps1": 2, "MaxOps2": 1, "Limits": [1, 3]}],
+    "thorough": [{"MaxReq1": 3, "MaxReq2": 2, "MaxOps1": 2, "MaxOps2": 1, "Limits": [1, 2, 3]}],
 }
 
 
@@ -56,7 +51,7 @@ def cases_cfg(b):
     def opt(v):
         return "<- None" if v is None else "= %d" % v
 
-    return CASES_CFG % {"MaxReq": b["MaxReq"], "MaxOps1": opt(b["MaxOps1"]), "MaxOps2": opt(b["MaxOps2"]), "Limits": "{" + ", ".join(str(x) for x in b["Limits"]) + "}"}
+    return CASES_CFG % {"MaxReq1": b["MaxReq1"], "MaxReq2": b["MaxReq2"], "MaxOps1": opt(b["MaxOps1"]), "MaxOps2": opt(b["MaxOps2"]), "Limits": "{" + ", ".join(str(x) for x in b["Limits"]) + "}"}
 
 
 class _Timeout(BaseException):
@@ -181,19 +176,19 @@ def real_case(job):
 TRACE_KEYS = ("tid", "req", "pats", "limit", "res", "w", "short", "greedy")
 
 
-def judge(ctx, events, label, stats, chunk=25000):
+def judge(ctx, events, stats, chunk=30000):
     """all verdicts come from SeqCompletionTrace.tla"""
     from .. import trace
 
     crashed = [e for e in events if e["res"] == "crash"]
     for e in crashed:
-        ctx.violation("C19|" + e["what"][:120], "make_matching_sequence(%r, %s, depth_limit=%s) -> %s" % (e["req"], e["texts"], e["limit"], e["what"]), _case(e, label))
+        ctx.violation("C19|" + e["what"][:120], "make_matching_sequence(%r, %s, depth_limit=%s) -> %s" % (e["req"], e["texts"], e["limit"], e["what"]), _case(e))
     stats["timeouts"] += sum(1 for e in events if e["res"] == "timeout")
     ok = [e for e in events if e["res"] in ("seq", "impossible")]
     parts = [ok[i : i + chunk] for i in range(0, len(ok), chunk)]
     results = common.pmap(_validate_part, parts, procs=min(6, max(1, len(parts))), chunksize=1) if len(parts) >= 8 else [_validate_part(p) for p in parts]
     for part, (bad, summ) in zip(parts, results):
-        ctx.tlc_runs.append(dict(summ, name="trace validation (SeqCompletionTrace, %s)" % label))
+        ctx.tlc_runs.append(dict(summ, name="trace validation (SeqCompletionTrace: enumerated, random and real calls)"))
         ctx.coverage["states"] = ctx.coverage.get("states", 0) + summ["distinct_states"]
         ctx.coverage["transitions"] = ctx.coverage.get("transitions", 0) + summ["states_generated"]
         for b in bad:
@@ -212,7 +207,7 @@ def judge(ctx, events, label, stats, chunk=25000):
                 b["k"],
                 ", as DeviationGreedyTake predicts" if b["dev"] else "",
             )
-            ctx.violation(sig, what, _case(e, label))
+            ctx.violation(sig, what, _case(e))
             stats["alarms"] += 1
     stats["judged"] += len(ok)
     stats["returned"] += sum(1 for e in ok if e["res"] == "seq")
@@ -229,7 +224,8 @@ def _validate_part(part):
     return bad, res.summary()
 
 
-def _case(e, label):
+def _case(e):
+    label = e.get("part")
     return {"part": label, "req": e["req"], "pats": e["pats"], "texts": e["texts"], "limit": e["limit"], "priority": e.get("priority"), "default_limit": label == "real"}
 
 
@@ -278,14 +274,14 @@ def selftest_binding(ctx, sample_events):
 # ---------------------------------------------------------------------------- run
 def run(ctx):
     stats = {"judged": 0, "returned": 0, "impossible": 0, "nontrivial": 0, "alarms": 0, "timeouts": 0, "out_of_domain": 0}
-    thm = tlc.run("SeqCompletion", "mc/SeqCompletion.cfg" if ctx.quick else "mc/SeqCompletion_thorough.cfg")
+    thm = c18.run_tlc("SeqCompletion", "mc/SeqCompletion.cfg" if ctx.quick else "mc/SeqCompletion_thorough.cfg")
     ctx.add_tlc(thm, "search machine + theorems (MachineSound, MachineMinimal, DeclAgrees, GreedyNeverBetter, StateIsFoldOfW)")
     enum_events = []
     seen = set()
     dev_cases = 0
     tid = 0
-    for b in BOXES["quick"] + ([] if ctx.quick else BOXES["thorough"]):
-        res = tlc.run("SeqCompletion", cases_cfg(b), dump=True)
+    for b in BOXES[ctx.tier]:
+        res = c18.run_tlc("SeqCompletion", cases_cfg(b), dump=True)
         ctx.add_tlc(res, "case enumeration (Solve)", b)
         jobs = []
         for req, pats, texts, limit, short, greedy in load_cases(res.dump_path):
@@ -301,13 +297,14 @@ def run(ctx):
         raise RuntimeError("TLC enumerated no case")
     if dev_cases == 0:
         raise RuntimeError("vacuous attribution model: DeviationGreedyTake never differs from Shortest in the box")
-    judged = judge(ctx, enum_events, "enum", stats)
     n_rand = ctx.pick(1500, 20000)
     rand_events = common.pmap(rand_case, [(i + 1, ctx.seed * 104729 + i) for i in range(n_rand)])
-    judge(ctx, rand_events, "random", stats)
     rj = real_jobs(ctx)
     real_events = common.pmap(real_case, rj)
-    judge(ctx, real_events, "real", stats)
+    for label, evs in (("enum", enum_events), ("random", rand_events), ("real", real_events)):
+        for e in evs:
+            e["part"] = label
+    judged = judge(ctx, enum_events + rand_events + real_events, stats)
     if stats["returned"] == 0 or stats["nontrivial"] == 0 or stats["impossible"] == 0:
         raise RuntimeError("vacuous run: %r" % stats)
     sample = [e for e in judged if e["res"] == "seq" and len(e["w"]) > len(e["req"])][:: max(1, len(judged) // 400)][:200]
